@@ -83,7 +83,7 @@ def run(rep: Report, tier: str) -> None:
     rep.check(tkey(gn) == tkey(mk_add([pr, mk_neg(cb)])), r, gn_fi.module, gn_fi.qualname, "gain = proceeds - cost basis", f"fiat_gain normalises to {_brief(gn)}; expected proceeds - cost basis of the same fraction", loc(gn_fi.node))
 
     # ---------------------------------------------------------------- C04.b
-    r = rep.rule("C04.b", "per-class fiat derivations by cases over supplied / absent optional columns", floor=20)
+    r = rep.rule("C04.b", "per-class fiat derivations by cases over supplied / absent optional columns", floor=20, follows_calls=True)
     classes = m.transaction_classes()
     _check_in(rep, r, m, classes["in"])
     _check_out(rep, r, m, classes["out"])
@@ -131,7 +131,17 @@ def _eff(m, defs, field, env):
     if not d:
         raise AnalysisError(f"field {field} has no definition in the constructor")
     v = effective_field_value(m, d, env)
-    return strip_validators(v) if v is not None else None
+    return _collapse_zero_default(strip_validators(v)) if v is not None else None
+
+
+def _collapse_zero_default(t):
+    """`x if x else ZERO` is x for a decimal x (a decimal is falsy exactly when it is zero); the same with a validator around x was stripped before."""
+    if not isinstance(t, tuple) or not t:
+        return t
+    t = tuple(_collapse_zero_default(x) if isinstance(x, tuple) else x for x in t)
+    if t[0] == "ite" and t[1][0] == "truthy" and t[2] == t[1][1] and _is_zero(t[3]):
+        return t[2]
+    return t
 
 
 def _fld(cls: str, name: str):
